@@ -1172,7 +1172,20 @@ func (fc *funcConverter) convertToStmts(ssaFunc *ssa.Function) ([]ast.Stmt, erro
 			block.Body = newBody
 		}
 
-		blockStmts := &ast.BlockStmt{List: append(block.Body, block.Phi...)}
+		phiStmts := block.Phi
+		if len(phiStmts) > 1 {
+			// The phi nodes of a successor take their values in parallel: an edge value may be
+			// another phi of the same block, as in "a, b = b, a" inside a loop, so assigning
+			// them one after the other would read an already overwritten variable.
+			parallel := &ast.AssignStmt{Tok: token.ASSIGN}
+			for _, stmt := range phiStmts {
+				assign := stmt.(*ast.AssignStmt)
+				parallel.Lhs = append(parallel.Lhs, assign.Lhs...)
+				parallel.Rhs = append(parallel.Rhs, assign.Rhs...)
+			}
+			phiStmts = []ast.Stmt{parallel}
+		}
+		blockStmts := &ast.BlockStmt{List: append(block.Body, phiStmts...)}
 		blockStmts.List = append(blockStmts.List, block.Exit)
 		if block.HasRefs {
 			stmts = append(stmts, &ast.LabeledStmt{Label: fc.getLabelName(block.Index), Stmt: blockStmts})
